@@ -135,8 +135,13 @@ TopUp        == "long" \in Returns /\ Get(w.nat.bal, Staker) < MaxN /\ Do(NatFun
 Relay        == \E p \in w.ibc.fly, o \in Outcomes : Do(AckCall(p.seq, o))
 Recover_     == \E u \in Principals, rcv \in {""} \cup {NatOf(x) : x \in Users}, f \in FailSeqs :
                   (\E p \in w.c.pk : Refundable(p)) /\ Do(RecoverCall(u, rcv, f))
+\* admin-selected recovery: one packet, the same packet listed twice (counts once), and two packets
 Forced       == AdminOps /\ \E p \in w.c.pk, u \in Principals :
-                  Refundable(p) /\ Do(ForcedCall(u, <<p.seq>>, IF p.rcv = Staker THEN "" ELSE p.rcv))
+                  /\ Refundable(p)
+                  /\ \/ \E sel \in {<<p.seq>>, <<p.seq, p.seq>>} :
+                          Do(ForcedCall(u, sel, IF p.rcv = Staker THEN "" ELSE p.rcv))
+                     \/ \E q \in w.c.pk : q.seq > p.seq /\ Refundable(q) /\
+                          Do(ForcedCall(u, <<p.seq, q.seq>>, IF p.rcv = Staker THEN "" ELSE p.rcv))
 FeeWithdraw_ == AdminOps /\ \E u \in Principals, a \in {1, w.c.fees, w.c.fees + 1} : a > 0 /\ Do(FeeWithdrawCall(u, a))
 Breaker      == AdminOps /\ \E u \in Principals : Do(BreakerCall(u))
 Resume       == AdminOps /\ w.c.stopped /\ \E u \in Principals, k \in ResumeScales :
